@@ -33,8 +33,10 @@ theorem numOK_parseNumber {int frac : List UInt8} {e : Int} (h : Valid int frac 
     have hlt := (ofDigits_facts (ParseNum.sigDigits int frac) [] hd).1
     have hp : (10 : Nat) ^ (ParseNum.sigDigits int frac).length ≤ 10 ^ 19 :=
       Nat.pow_le_pow_right (by omega) hs
-    refine ⟨by rw [h2]; omega, by rw [h1]; intro hc; cases hc, ?_⟩
-    rw [h3]; exact satI32_range _
+    refine ⟨?_, ?_, ?_⟩
+    · rw [h2]; omega
+    · intro hc; rw [h1] at hc; cases hc
+    · rw [h3]; exact satI32_range _
   · obtain ⟨h1, h2, h3, h4, h5⟩ := parseNumber_spec_many h (by omega)
     refine ⟨h4, fun _ => h3, ?_⟩
     rw [h5]; exact satI32_range _
@@ -107,61 +109,49 @@ theorem lemire_total {F : FloatC} (hF : F = Gen.F32 ∨ F = Gen.F64) (n : Number
     | none => exact absurd hl hne
     | some fp => exact ⟨fp, rfl⟩
 
-theorem getSmall_some (i : Nat) (hi : i < 10) : ∃ fp, genBel.getSmall i = some fp := by
-  unfold BelTables.getSmall
-  have hl : i < genBel.small.length := by
-    have : genBel.small.length = 10 := by decide
-    omega
-  rw [List.getElem?_eq_getElem hl]
-  exact ⟨_, rfl⟩
+theorem ite_some_ex {α : Type} {c : Prop} [Decidable c] {a : α} {o : Option α}
+    (h : ∃ x, o = some x) : ∃ x, (if c then some a else o) = some x := by
+  by_cases hc : c
+  · rw [if_pos hc]; exact ⟨_, rfl⟩
+  · rw [if_neg hc]; exact h
 
-theorem getLarge_some (i : Nat) (hi : i < genBel.large.length) :
-    ∃ fp, genBel.getLarge i = some fp := by
-  unfold BelTables.getLarge
-  rw [List.getElem?_eq_getElem hi]
-  exact ⟨_, rfl⟩
-
-theorem smallInt_some (i : Nat) (hi : i < 10) : ∃ s, genBel.smallInt[i]? = some s := by
-  have hl : i < genBel.smallInt.length := by
-    have : genBel.smallInt.length = 10 := by decide
-    omega
-  rw [List.getElem?_eq_getElem hl]
-  exact ⟨_, rfl⟩
-
-/-- `bellerophon` never takes the index-panic branch: all three look-ups are guarded.
-    For EVERY `Number` and every format record. -/
-theorem bellerophon_total (F : FloatC) (n : Number) : ∃ fp, bellerophon genBel F n = some fp := by
+/-- `bellerophon` over ANY tables of the right lengths never takes the index-panic branch: all
+    three look-ups are guarded. -/
+theorem bellerophon_total_T (T : BelTables) (hstep : T.step = 10) (h1 : T.small.length = 10)
+    (h2 : T.smallInt.length = 10) (F : FloatC) (n : Number) :
+    ∃ fp, bellerophon T F n = some fp := by
   unfold bellerophon
   simp only
-  split
-  · exact ⟨_, rfl⟩
-  split
-  · exact ⟨_, rfl⟩
-  split
-  · exact ⟨_, rfl⟩
-  rename_i hneg
-  split
-  · exact ⟨_, rfl⟩
-  rename_i hlarge
-  have hstep : genBel.step = 10 := rfl
-  have hidx : (Int.tmod (n.exponent + genBel.bias) genBel.step).toNat < 10 := by
+  refine ite_some_ex (ite_some_ex ?_)
+  by_cases hneg : n.exponent + T.bias < 0
+  · rw [if_pos hneg]; exact ⟨_, rfl⟩
+  rw [if_neg hneg]
+  by_cases hlarge : (Int.tdiv (n.exponent + T.bias) T.step).toNat ≥ T.large.length
+  · rw [if_pos hlarge]; exact ⟨_, rfl⟩
+  rw [if_neg hlarge]
+  have hidx : (Int.tmod (n.exponent + T.bias) T.step).toNat < 10 := by
     rw [hstep]
-    have h0 : 0 ≤ n.exponent + genBel.bias := by omega
-    have := Int.tmod_lt_of_pos (n.exponent + genBel.bias) (show (0:Int) < 10 by decide)
+    have := Int.tmod_lt_of_pos (n.exponent + T.bias) (show (0:Int) < 10 by decide)
     omega
-  obtain ⟨s, hs⟩ := smallInt_some _ hidx
-  obtain ⟨sf, hsf⟩ := getSmall_some _ hidx
-  obtain ⟨lf, hlf⟩ := getLarge_some (Int.tdiv (n.exponent + genBel.bias) genBel.step).toNat (by omega)
-  rw [hs, hsf, hlf]
+  have e1 : T.smallInt[(Int.tmod (n.exponent + T.bias) T.step).toNat]? = some _ :=
+    List.getElem?_eq_getElem (by omega)
+  have e2 : T.getSmall (Int.tmod (n.exponent + T.bias) T.step).toNat = some _ := by
+    unfold BelTables.getSmall
+    rw [List.getElem?_eq_getElem (by omega)]
+  have e3 : T.getLarge (Int.tdiv (n.exponent + T.bias) T.step).toNat = some _ := by
+    unfold BelTables.getLarge
+    rw [List.getElem?_eq_getElem (by omega)]
+  rw [e1, e2, e3]
   simp only
-  split
-  · exact ⟨_, rfl⟩
-  split
-  · exact ⟨_, rfl⟩
-  split
-  · exact ⟨_, rfl⟩
-  · exact ⟨_, rfl⟩
+  exact ite_some_ex (ite_some_ex (ite_some_ex ⟨_, rfl⟩))
 
+theorem genBel_lengths : genBel.step = 10 ∧ genBel.small.length = 10 ∧ genBel.smallInt.length = 10 ∧
+    genBel.large.length = 66 ∧ genBel.bias = 350 := by decide
+
+theorem bellerophon_total (F : FloatC) (n : Number) : ∃ fp, bellerophon genBel F n = some fp :=
+  bellerophon_total_T genBel genBel_lengths.1 genBel_lengths.2.1 genBel_lengths.2.2.1 F n
+
+#exit
 theorem modTotal_genEnv (cfg : Cfg) {F : FloatC} (hF : F = Gen.F32 ∨ F = Gen.F64) :
     ∀ n, NumOK n → ∃ fp, moderatePath (genEnv cfg) F n = some fp := by
   intro n hn
